@@ -57,7 +57,7 @@ var vsClauses = []vrClause{
 		Rule:  "getter k == bit k of the SAM spec table; setter k changes exactly bit k",
 		Gen:   vsGenFlags, Run: vsRunFlags},
 	{Prop: "C03", Name: "record-roundtrip",
-		Bound: "systematic: each of the 6 text fields and a Z tag value over all words of length <=2 over {dquote,space,0x01,0x7f,0x80,0xff,a,@,:}, each int field over extreme values, each tag type over its value pool; long lines (SEQ/QUAL, a Z tag, QNAME of 4000, 4096, 5000, 70000, 200000 bytes); then random records (0..8 tags, odd tag names) until the time budget",
+		Bound: "systematic: each of the 6 text fields and a Z tag value over all words of length <=2 over {dquote,space,0x01,0x7f,0x80,0xff,a,@,:,%}, the texts %, 50%, %d, %s%s, 100%%, %!, a%vb in each text field, a Z tag value and a tag name, each int field over extreme values, each tag type over its value pool; long lines (SEQ/QUAL, a Z tag, QNAME of 4000, 4096, 5000, 70000, 200000 bytes); then random records (0..8 tags, odd tag names) until the time budget",
 		Rule:  "Write ok; MarshalText == Write bytes; one line; tags sorted; Reader/ReaderHeader give back exactly the record",
 		Gen:   vsGenRoundtrip, Run: vsRunRoundtrip},
 	{Prop: "C03", Name: "file",
@@ -73,8 +73,8 @@ var vsClauses = []vrClause{
 		Rule:  "items of Reader/ReaderHeader on the chunked stream == items on bytes.Reader",
 		Gen:   vsGenChunking, Run: vsRunChunking},
 	{Prop: "C06", Name: "crlf",
-		Bound: "random well-formed files (LF) re-terminated with CRLF",
-		Rule:  "same items with LF and CRLF",
+		Bound: "30 fixed texts of a header and two records with blank lines (leading, between header and records, between records, one or two trailing, everywhere; with and without the final terminator; blank lines only); then random well-formed files (LF), every third with 1..2 blank lines inserted at random line starts, re-terminated with CRLF",
+		Rule:  "same items with LF and CRLF (the CRLF text is the LF text with every LF replaced by CRLF, so a blank line becomes CR LF)",
 		Gen:   vsGenCRLF, Run: vsRunCRLF},
 	{Prop: "C06", Name: "file",
 		Bound: "random inputs x {plain, .gz} and a missing path",
@@ -85,7 +85,7 @@ var vsClauses = []vrClause{
 		Rule:  "only leading records of the fault-free decode, then a non-nil error, finitely many items",
 		Gen:   vsGenReadFault, Run: vsRunReadFault},
 	{Prop: "C07", Name: "write-fault",
-		Bound: "random records x every k in 0..len(output)+1 x {forever, once}",
+		Bound: "2 long records (a Z tag of 5000 bytes: a 5 KB line; SEQ/QUAL of 5000 bytes each: a 10 KB line) x k in the last 4200 bytes of the line .. len(output)+1 (5 KB line: every k; 10 KB line: every 5th k and every k in the last 256 bytes) and every 97th k before x {forever; once for every 5th of these k and the last 3}; then random records x every k in 0..len(output)+1 x {forever, once}",
 		Rule:  "Write returns non-nil error iff k < len(output)",
 		Gen:   vsGenWriteFault, Run: vsRunWriteFault},
 	{Prop: "C11", Name: "total",
@@ -761,9 +761,12 @@ func vsRenderLines(lines []vsLine) []byte {
 // ---------------------------------------------------------------------------
 // generators of records / files
 
-var vsAlphaQ = []byte{'"', ' ', 0x01, 0x7f, 0x80, 0xff, 'a', 'Z', '0', '@', ':', '*', ',', '#', '\'', '\\', '=', '-', '"'}
-var vsAlphaNQ = []byte{' ', 0x01, 0x7f, 0x80, 0xff, 'a', 'Z', '0', '@', ':', '*', ',', '#', '\'', '\\', '=', '-'}
-var vsTextPool = []string{"", "*", "=", "read1", "chr1", "10M2I3D", "ACGTN", "IIII#", "r/1", "a b"}
+var vsAlphaQ = []byte{'"', ' ', 0x01, 0x7f, 0x80, 0xff, 'a', 'Z', '0', '@', ':', '*', ',', '#', '\'', '\\', '=', '-', '"', '%'}
+var vsAlphaNQ = []byte{' ', 0x01, 0x7f, 0x80, 0xff, 'a', 'Z', '0', '@', ':', '*', ',', '#', '\'', '\\', '=', '-', '%'}
+var vsTextPool = []string{"", "*", "=", "read1", "chr1", "10M2I3D", "ACGTN", "IIII#", "r/1", "a b", "50%", "%d", "%s%s", "100%%"}
+
+// vsPercentTexts: texts that a writer using a field as a printf format would mangle.
+var vsPercentTexts = []string{"%", "50%", "%d", "%s%s", "100%%", "%!", "a%vb"}
 var vsQuotePool = []string{`"`, `""`, `a"b`, `"abc"`, `"a`, `a"`, `" "`}
 var vsIntPool = []int{0, 1, -1, 2, 60, 255, 4095, 65535, 1<<31 - 1, -(1 << 31), 1 << 32, math.MaxInt64, math.MinInt64, math.MaxInt64 - 1, -12345}
 var vsFloatPool = []float64{0, math.Copysign(0, -1), 1, -1, 1.5, 0.1, -2.5e-3, 1e21, 1e-7, math.NaN(), math.Inf(1), math.Inf(-1),
@@ -893,7 +896,22 @@ func vsBaseRec() *SAM {
 
 func vsGenRoundtrip(g *vrGen) {
 	emit := func(s *SAM) { g.Case(map[string]any{"record": vsEncRec(s)}) }
-	sys := []byte{'"', ' ', 0x01, 0x7f, 0x80, 0xff, 'a', '@', ':'}
+	sys := []byte{'"', ' ', 0x01, 0x7f, 0x80, 0xff, 'a', '@', ':', '%'}
+	// printf-verb look-alikes in every text field, a Z tag value and a tag name
+	for _, w := range vsPercentTexts {
+		for fi := 0; fi < 8; fi++ {
+			s := vsBaseRec()
+			switch {
+			case fi < 6:
+				*vsTextFields(s)[fi] = w
+			case fi == 6:
+				s.Tags["ZZ"] = w
+			default:
+				s.Tags = map[string]any{w: 5}
+			}
+			emit(s)
+		}
+	}
 	for fi := 0; fi < 7; fi++ {
 		vrWords(sys, 2, func(w []byte) bool {
 			s := vsBaseRec()
@@ -1577,10 +1595,65 @@ func vsRunChunking(in map[string]any) vrResult {
 // ---------------------------------------------------------------------------
 // C06/crlf
 
+// vsBlankTexts: well-formed LF texts with blank lines: leading, between the
+// header and the records, between records, trailing (one and two), everywhere,
+// with and without the final line terminator, and texts of blank lines only.
+func vsBlankTexts() [][]byte {
+	h := "@HD\tVN:1.6\n"
+	s2 := vsBaseRec()
+	s2.Qname, s2.Tags = "read2", map[string]any{}
+	r1 := strings.Join(vsRenderFields(vsBaseRec()), "\t") + "\n"
+	r2 := strings.Join(vsRenderFields(s2), "\t") + "\n"
+	var out [][]byte
+	for _, t := range []string{
+		h + "\n" + r1 + r2,
+		h + r1 + "\n" + r2,
+		h + r1 + r2 + "\n",
+		h + r1 + r2 + "\n\n",
+		"\n" + h + r1 + r2,
+		"\n\n" + r1,
+		h + "\n" + h + r1,
+		h + "\n\n" + r1 + "\n\n" + r2 + "\n\n",
+		"\n" + h + "\n" + r1 + "\n" + r2 + "\n",
+		r1 + "\n" + r2,
+		r1 + "\n",
+		h + "\n",
+		"\n", "\n\n", "\n\n\n",
+	} {
+		out = append(out, []byte(t), []byte(strings.TrimSuffix(t, "\n")))
+	}
+	return out
+}
+
+// vsInsertBlanks inserts 1..2 extra line terminators (blank lines) at random
+// line starts of an LF text (also in front and at the end).
+func vsInsertBlanks(r *rand.Rand, data []byte) []byte {
+	var out []byte
+	blank := func() {
+		if r.Intn(3) == 0 {
+			out = append(out, "\n\n"[:1+r.Intn(2)]...)
+		}
+	}
+	blank()
+	for _, c := range data {
+		out = append(out, c)
+		if c == '\n' {
+			blank()
+		}
+	}
+	return out
+}
+
 func vsGenCRLF(g *vrGen) {
+	for _, d := range vsBlankTexts() {
+		g.Case(map[string]any{"data": vrB(d)})
+	}
 	max := vsMaxCases(g, 20000, 100000)
 	for i := 0; i < max && !g.Expired(); i++ {
 		data := vsRenderLines(vsRandLines(g.Rand, g.Rand.Intn(4) == 0, 3, 4))
+		if i%3 == 2 {
+			data = vsInsertBlanks(g.Rand, data)
+		}
 		if g.Rand.Intn(4) == 0 && len(data) > 0 {
 			data = data[:len(data)-1] // no final line terminator
 		}
@@ -1841,7 +1914,40 @@ func (w *vsFaultWriter) Write(p []byte) (int, error) {
 	return n, vsErrInjected
 }
 
+// vsLongFaultRecs: records whose written line is longer than a 4096-byte
+// buffer: a Z tag of 5000 bytes as the last field (about 5 KB), SEQ/QUAL of
+// 5000 bytes each (about 10 KB).
+func vsLongFaultRecs() []*SAM {
+	a := vsBaseRec()
+	a.Seq, a.Qual = vsRep("ACGT", 5000), vsRep("I#5?F", 5000)
+	b := vsBaseRec()
+	b.Tags["ZZ"] = vsRep("long tag ", 5000)
+	return []*SAM{b, a}
+}
+
 func vsGenWriteFault(g *vrGen) {
+	// long records first (a writer that buffers internally must still report a
+	// fault that only its last flush meets): k in the last 4200 bytes of the
+	// line .. len+1 (the 5 KB line: every k; the 10 KB line: every 5th k and every
+	// k in the last 256 bytes), every 97th k before; mode once: every 5th of
+	// these k and the last 3
+	for i, s := range vsLongFaultRecs() {
+		total := vsWrittenLen(s)
+		rec := vsEncRec(s)
+		for j, k := 0, 0; k <= total+1 && !g.Expired(); k++ {
+			if k < total-4200 && k%97 != 0 {
+				continue
+			}
+			if i > 0 && k >= total-4200 && k < total-256 && k%5 != 0 {
+				continue
+			}
+			g.Case(map[string]any{"record": rec, "k": k, "mode": "forever"})
+			if j%5 == 0 || k >= total-1 {
+				g.Case(map[string]any{"record": rec, "k": k, "mode": "once"})
+			}
+			j++
+		}
+	}
 	max := vsMaxCases(g, 30000, 200000)
 	n := 0
 	for n < max && !g.Expired() {
